@@ -78,9 +78,45 @@ def _closure_def(body, op):
     return None
 
 
-def _desugar_for_each(caller, bi, by_path):
+def _single_def_call(body, l):
+    """(block index, terminator) of the only definition of local l when that is a call, else None."""
+    found = []
+    for bi, bb in enumerate(body["blocks"]):
+        for st in bb["stmts"]:
+            if st["k"] == "assign" and st["pl"]["l"] == l and not st["pl"]["p"]:
+                found.append(None)
+        t = bb["term"]
+        if t.get("k") == "call" and t["dest"]["l"] == l and not t["dest"]["p"]:
+            found.append((bi, t))
+    return found[0] if len(found) == 1 and found[0] is not None else None
+
+
+def _desugar_map_collect(caller, bi, by_path):
+    """`iter.map(f).collect::<Vec<_>>()` -> `let mut v = Vec::new(); for x in iter { v.push(f(x)) }` (closure inlined)."""
+    blocks = caller["blocks"]
+    t = blocks[bi]["term"]
+    if len(t.get("args", [])) != 1 or t.get("target") is None or "Vec<" not in (t.get("callee_args") or ""):
+        return False
+    a = t["args"][0]
+    if a.get("k") not in ("move", "copy") or a["pl"]["p"]:
+        return False
+    d = _single_def_call(caller, a["pl"]["l"])
+    if d is None or not (d[1].get("callee") or "").endswith("iter::Iterator::map") or len(d[1].get("args", [])) != 2 or d[1].get("target") is None:
+        return False
+    mbi, mt = d
+    it_op, f_op = copy.deepcopy(mt["args"][0]), copy.deepcopy(mt["args"][1])
+    if _closure_def(caller, f_op) is None or (_closure_def(caller, f_op)[0] == "closure" and _closure_def(caller, f_op)[1] not in by_path):
+        return False
+    # the map call disappears; the loop is built at the collect site
+    blocks[mbi]["term"] = {"k": "goto", "target": mt["target"], "sp": mt.get("sp")}
+    t["args"] = [it_op, f_op]
+    return _desugar_for_each(caller, bi, by_path, collect_into_vec=True)
+
+
+def _desugar_for_each(caller, bi, by_path, collect_into_vec=False):
     """`Iterator::for_each(iter, f)` -> an explicit `loop { match iter.next() { Some(x) => f(x), None => break } }` with the closure's body
-    inlined, so that rules written for `for` loops see the same shape.  Returns True when the call was rewritten."""
+    inlined, so that rules written for `for` loops see the same shape.  Returns True when the call was rewritten.
+    collect_into_vec: the results of f are pushed into a fresh Vec that becomes the value of the call (map + collect)."""
     blocks = caller["blocks"]
     t = blocks[bi]["term"]
     if len(t.get("args", [])) != 2 or t.get("target") is None:
@@ -102,8 +138,18 @@ def _desugar_for_each(caller, bi, by_path):
     dest, target = t["dest"], t["target"]
     nb = len(blocks)
     H, S, B, E, U = nb, nb + 1, nb + 2, nb + 3, nb + 4
+    P_ = nb + 5          # push block (map + collect only)
+    after_f = P_ if collect_into_vec else H
     blocks[bi]["stmts"].append({"k": "assign", "pl": {"l": l_it, "p": []}, "rv": {"k": "use", "ops": [copy.deepcopy(it_op)]}, "sp": sp, "inl": "for_each"})
-    blocks[bi]["term"] = {"k": "goto", "target": H, "sp": sp, "inl": "for_each"}
+    if collect_into_vec:
+        vty = locs[dest["l"]]["ty"] if not dest["p"] else "std::vec::Vec<?>"
+        l_vec, l_vref, l_pu = newl(vty, "collected"), newl("&mut " + vty), newl("()")
+        V0 = nb + 6
+        vnew = "std::vec::Vec::<?>::new"
+        blocks[bi]["term"] = {"k": "call", "func": {"k": "const", "ty": "fn", "fn": "std::vec::Vec::<T>::new", "fnargs": vnew}, "args": [], "dest": {"l": l_vec, "p": []}, "target": H,
+                              "fnsp": sp, "sp": sp, "callee": "std::vec::Vec::<T>::new", "callee_args": vnew, "targs": [], "inl": "map_collect"}
+    else:
+        blocks[bi]["term"] = {"k": "goto", "target": H, "sp": sp, "inl": "for_each"}
     nxt = "<%s as std::iter::Iterator>::next" % ity
     blocks.append({"stmts": [{"k": "assign", "pl": {"l": l_ref, "p": []}, "rv": {"k": "ref", "bk": "mut", "pl": {"l": l_it, "p": []}}, "sp": sp}],
                    "term": {"k": "call", "func": {"k": "const", "ty": "fn", "fn": "std::iter::Iterator::next", "fnargs": nxt}, "args": [{"k": "move", "pl": {"l": l_ref, "p": []}}],
@@ -114,7 +160,7 @@ def _desugar_for_each(caller, bi, by_path):
     elem_stmt = {"k": "assign", "pl": {"l": l_elem, "p": []}, "rv": {"k": "use", "ops": [{"k": "move", "pl": {"l": l_opt, "p": [["downcast", 1, "Some"], ["field", 0, "0"]]}}]}, "sp": sp}
     if cd[0] == "fn":
         op = cd[1]
-        call = {"k": "call", "func": copy.deepcopy(op), "args": [{"k": "move", "pl": {"l": l_elem, "p": []}}], "dest": {"l": l_unit, "p": []}, "target": H, "fnsp": sp, "sp": sp,
+        call = {"k": "call", "func": copy.deepcopy(op), "args": [{"k": "move", "pl": {"l": l_elem, "p": []}}], "dest": {"l": l_unit, "p": []}, "target": after_f, "fnsp": sp, "sp": sp,
                 "callee": op["fn"], "callee_args": op.get("fnargs", op["fn"]), "targs": [], "res": op["fn"], "res_args": op.get("fnargs", op["fn"]), "res_kind": "item"}
         blocks.append({"stmts": [elem_stmt], "term": call})
     else:
@@ -124,10 +170,19 @@ def _desugar_for_each(caller, bi, by_path):
         env = ({"k": "ref", "bk": "mut", "pl": copy.deepcopy(f_op["pl"])} if envty.startswith("&mut") else
                {"k": "ref", "bk": "shared", "pl": copy.deepcopy(f_op["pl"])} if envty.startswith("&") else {"k": "use", "ops": [copy.deepcopy(f_op)]})
         l_env = newl(envty or "?")
-        fake = {"k": "call", "args": [{"k": "move", "pl": {"l": l_env, "p": []}}, {"k": "move", "pl": {"l": l_elem, "p": []}}], "dest": {"l": l_unit, "p": []}, "target": H, "sp": sp}
+        fake = {"k": "call", "args": [{"k": "move", "pl": {"l": l_env, "p": []}}, {"k": "move", "pl": {"l": l_elem, "p": []}}], "dest": {"l": l_unit, "p": []}, "target": after_f, "sp": sp}
         blocks.append({"stmts": [elem_stmt, {"k": "assign", "pl": {"l": l_env, "p": []}, "rv": env, "sp": sp}], "term": fake})
-    blocks.append({"stmts": [{"k": "assign", "pl": copy.deepcopy(dest), "rv": {"k": "agg", "ops": [], "agg": "tuple"}, "sp": sp}], "term": {"k": "goto", "target": target, "sp": sp}})
+    if collect_into_vec:
+        blocks.append({"stmts": [{"k": "assign", "pl": copy.deepcopy(dest), "rv": {"k": "use", "ops": [{"k": "move", "pl": {"l": l_vec, "p": []}}]}, "sp": sp}], "term": {"k": "goto", "target": target, "sp": sp}})
+    else:
+        blocks.append({"stmts": [{"k": "assign", "pl": copy.deepcopy(dest), "rv": {"k": "agg", "ops": [], "agg": "tuple"}, "sp": sp}], "term": {"k": "goto", "target": target, "sp": sp}})
     blocks.append({"stmts": [], "term": {"k": "unreachable", "sp": sp}})
+    if collect_into_vec:
+        push = "std::vec::Vec::<?>::push"
+        blocks.append({"stmts": [{"k": "assign", "pl": {"l": l_vref, "p": []}, "rv": {"k": "ref", "bk": "mut", "pl": {"l": l_vec, "p": []}}, "sp": sp}],
+                       "term": {"k": "call", "func": {"k": "const", "ty": "fn", "fn": "std::vec::Vec::<T>::push", "fnargs": push},
+                                "args": [{"k": "move", "pl": {"l": l_vref, "p": []}}, {"k": "move", "pl": {"l": l_unit, "p": []}}], "dest": {"l": l_pu, "p": []}, "target": H,
+                                "fnsp": sp, "sp": sp, "callee": "std::vec::Vec::<T>::push", "callee_args": push, "targs": [], "inl": "map_collect"}})
     if cd[0] == "closure":
         _inline_one(caller, B, copy.deepcopy(by_path[cd[1]]))
     return True
@@ -154,7 +209,11 @@ def inline_new_helpers(raw, baseline=None):
                 pristine_all = {p: copy.deepcopy(x) for p, x in by_path.items() if "{closure" in p}
             n = 0
             for bi in sites:
-                if _desugar_for_each(b, bi, pristine_all):
+                if (b["blocks"][bi]["term"].get("callee") or "").endswith("Iterator::collect"):
+                    if _desugar_map_collect(b, bi, pristine_all):
+                        done.append((b["path"], "map_collect"))
+                        n += 1
+                elif _desugar_for_each(b, bi, pristine_all):
                     done.append((b["path"], "for_each"))
                     n += 1
             if not n:
@@ -205,6 +264,29 @@ def expand_body(facts, body, want, depth=3):
             break
         for bi, cand in sites:
             _inline_one(raw, bi, copy.deepcopy(by_path[cand]))
+    nb = Body(raw, facts)
+    nb.key = getattr(body, "key", raw["path"])
+    return nb
+
+
+def desugar_map_collect(facts, body):
+    """On demand: a copy of `body` in which every `iter.map(f).collect::<Vec<_>>()` is an explicit push loop (see _desugar_map_collect).
+    Not applied globally: the pinned tree itself uses this form and some rules are written against it."""
+    from .mir import Body
+    raw = copy.deepcopy(body.raw)
+    closures = {b["path"]: b for b in facts.raw["bodies"] if "{closure" in b["path"]}
+    n = 0
+    for _ in range(MAX_DEPTH):
+        sites = [bi for bi, bb in enumerate(raw["blocks"]) if bb["term"].get("k") == "call" and not bb.get("cleanup") and (bb["term"].get("callee") or "").endswith("iter::Iterator::collect")]
+        k = 0
+        for bi in sites:
+            if _desugar_map_collect(raw, bi, {p: copy.deepcopy(c) for p, c in closures.items()}):
+                k += 1
+        n += k
+        if not k:
+            break
+    if not n:
+        return None
     nb = Body(raw, facts)
     nb.key = getattr(body, "key", raw["path"])
     return nb
